@@ -44,12 +44,15 @@ def expected_keys(rec):
             except ValueError:
                 pass
     for t in tags:
-        if len(t) >= 2 and isinstance(t[0], str) and (len(t[0]) == 1 or t[0] in ("expiration", "delegation")):
+        if len(t) >= 2 and isinstance(t[0], str):
             val = str(t[1]).encode("utf8", "surrogatepass")
             if len(val) > MAX_TAG_VALUE:
                 val = hashlib.sha256(val).digest()
             k = b"\x09" + t[0].encode("utf8", "surrogatepass") + b"\x00" + val + suffix
-            (keys if isinstance(t[1], str) else opt).add(k)
+            indexable = len(t[0]) == 1 or t[0] in ("expiration", "delegation")
+            # required: what the property calls indexable, with a string value; anything else the event really carries may be
+            # indexed too (an implementation indexing more tags is still coherent) - but never a value the event does not have
+            (keys if (indexable and isinstance(t[1], str)) else opt).add(k)
     return keys, opt
 
 
